@@ -258,6 +258,32 @@ def gen_adds(rng: random.Random) -> dict:
     return {"kind": "adds", "calls": calls}
 
 
+def gen_near_chain(rng: random.Random) -> dict:
+    """Direct `VertexList.add` sequences on NEAR-CHAINS: points 0.6 TOL apart along a line (neighbours within the
+    tolerance, second neighbours 1.2 TOL apart: closeness is not transitive there), in random insertion order, with
+    slave lists from a small pool. Distances are multiples of ~0.6 TOL, so no comparison comes near the threshold.
+    The clustering assumption of the key theorems does not hold here: the oracle states what `add` guarantees
+    without it (first-match semantics, T_C05_first_match / _separated)."""
+    step = rng.choice([
+        [Fraction(6, 10**8), Fraction(0), Fraction(0)],
+        [Fraction(0), Fraction(6, 10**8), Fraction(0)],
+        [Fraction(0), Fraction(0), Fraction(-6, 10**8)],
+        [Fraction(35, 10**9), Fraction(35, 10**9), Fraction(35, 10**9)],
+    ])
+    origin = rng.choice([[Fraction(0)] * 3, [Fraction(1), Fraction(2), Fraction(-3)], [Fraction(1, 8), Fraction(0), Fraction(5, 4)]])
+    n = rng.randint(3, 6)
+    pool = rng.choice([[[]], [[], ["pa"]], [["pa"], ["pa", "pb"], ["pb", "pa"]]])
+    calls = []
+    ks = list(range(n)) + [rng.randrange(n) for _ in range(rng.randint(0, 3))]
+    rng.shuffle(ks)
+    for k in ks:
+        p = [o + k * d for o, d in zip(origin, step)]
+        calls.append({"point": [str(c) for c in p], "slaves": list(rng.choice(pool))})
+    if rng.random() < 0.4:  # a far point in between
+        calls.insert(rng.randrange(len(calls) + 1), {"point": [str(o + 1) for o in origin], "slaves": list(rng.choice(pool))})
+    return {"kind": "adds", "calls": calls, "nearchain": True}
+
+
 def gen_shape(rng: random.Random) -> dict:
     """Built-in shapes next to each other (positions computed by the library), patches through the shape API."""
     return {
@@ -291,14 +317,16 @@ class C05(core.Check):
     )
     assumptions = [
         "closeness `norm(p - q) < TOL` is an equivalence on the points of one assembly (clusters of diameter < TOL, "
-        "different clusters >= 100 TOL apart); the theorems state this as a hypothesis, the generators respect it",
+        "different clusters >= 100 TOL apart); the key theorems state this as a hypothesis, the generators respect it -- "
+        "except the near-chain cases, which are judged by first-match semantics (T_C05_first_match*, no such hypothesis)",
         "float64 evaluation of the norm agrees with the exact rational evaluation away from the threshold",
         "python `sorted` on `str` = lexicographic order by code point = Lean `String` order (names are ASCII)",
     ]
     partial_note = (
         "Exact characterisation proved: two corners share a vertex iff same position class and same slave-patch set. "
         "Blocks whose slave-patch sets at a common point differ but overlap are therefore not connected there; the "
-        "property text can be read either way (see notes/C05.md)."
+        "property text can be read either way (see notes/C05.md). Without separated clusters only first-match semantics "
+        "holds (proved); the partition then depends on the insertion order (witness proved and replayed)."
     )
 
     # ------------------------------------------------------------------ generators
@@ -309,6 +337,7 @@ class C05(core.Check):
         cases += [gen_hist(rng) for _ in range(n // 4)]
         cases += [gen_chain(rng) for _ in range(n // 5)]
         cases += [gen_adds(rng) for _ in range(n // 3)]
+        cases += [gen_near_chain(rng) for _ in range(n // 6)]
         for what in ["cyl-cyl", "cyl-ring", "box-grid", "hemi", "cyl-merged"]:
             for order in (False, True):
                 cases.append({"kind": "shape", "what": what, "r": rng.choice([1, 2]), "order": order})
@@ -584,6 +613,8 @@ class C05(core.Check):
                 # direct calls may repeat a name; the registry compares sorted lists (from Mesh the lists come from
                 # sets, so the multiset is a set there)
                 keys.append(([Fraction(x) for x in c["point"]], tuple(sorted(c["slaves"]))))
+            if case.get("nearchain"):
+                return self._check_first_match(keys, impl["R"], "VertexList.add")
             return self._check_partition(keys, impl["R"], "VertexList.add")
         return self._oracle_asm(impl)
 
@@ -633,6 +664,36 @@ class C05(core.Check):
         return out
 
     @staticmethod
+    def _check_first_match(keys, got, where: str) -> List[dict]:
+        """what `add(point, list)` guarantees on any points (no clustering assumed): vertices are numbered in creation
+        order; a call gets a vertex within TOL of its point that was created for the same sorted list, namely the first
+        such vertex; two vertices created for the same list are at least TOL apart"""
+        out: List[dict] = []
+        pos: Dict[int, list] = {}
+        names: Dict[int, tuple] = {}
+
+        def near(p, q):
+            return sum((a - b) ** 2 for a, b in zip(p, q)) < TOL**2
+
+        for i, ((p, s), v) in enumerate(zip(keys, got)):
+            if v not in pos:
+                if v != len(pos):
+                    return [{"site": f"{where}:index-not-dense", "what": f"call {i} got the new vertex {v}, {len(pos)} exist"}]
+                pos[v], names[v] = p, s
+            if not near(p, pos[v]):
+                return [{"site": f"{where}:vertex-away-from-point", "what": f"call {i} at {list(map(float, p))} got vertex {v} created at {list(map(float, pos[v]))}"}]
+            if names[v] != s:
+                return [{"site": f"{where}:vertex-of-another-slave-set", "what": f"call {i} with {list(s)} got vertex {v} created for {list(names[v])}"}]
+            for u in range(v):
+                if names[u] == s and near(p, pos[u]):
+                    return [{"site": f"{where}:not-the-first-matching-vertex", "what": f"call {i} at {list(map(float, p))} {list(s)} got vertex {v}, but vertex {u} at {list(map(float, pos[u]))} matches too", "expected": f"vertex {u}"}]
+        for u in pos:
+            for v in pos:
+                if u < v and names[u] == names[v] and near(pos[u], pos[v]):
+                    return [{"site": f"{where}:two-vertices-within-tolerance", "what": f"vertices {u} and {v} for {list(names[u])} at {list(map(float, pos[u]))} / {list(map(float, pos[v]))}"}]
+        return out
+
+    @staticmethod
     def _check_partition(keys, got, where: str) -> List[dict]:
         """same vertex <=> same position (within TOL) and same slave-patch set"""
         out = []
@@ -671,6 +732,8 @@ class C05(core.Check):
         if case["kind"] == "hist":
             n_merge_late = sum(1 for i, st in enumerate(case["steps"]) if st[0] == "merge" and any(x[0] == "assemble" for x in case["steps"][:i]))
             return f"hist:assemblies={sum(1 for st in case['steps'] if st[0] == 'assemble')}:late-merges={min(n_merge_late, 2)}" + (":" + case["tag"] if case.get("tag") else "")
+        if case["kind"] == "adds" and case.get("nearchain"):
+            return "adds:near-chain:vertices=" + str(min(len(impl.get("I", [])), 4))
         if case["kind"] != "asm":
             return case["kind"] + (":" + case["what"] if "what" in case else "")
         nd = sum(1 for d in impl.get("D", []) if d[1])
